@@ -44,6 +44,8 @@ impl GasBinder {
         for t in jstrs(inst, "Tokens") {
             let addr = if t == "sac" {
                 env.register_stellar_asset_contract_v2(admin.clone()).address()
+            } else if t == "nv" {
+                env.register(crate::probe::naivetoken::NaiveToken, ())
             } else {
                 let meta = TokenMetadata { decimal: 7, name: SStr::from_str(&env, "Gas Token"), symbol: SStr::from_str(&env, "GAS") };
                 env.register(interchain_token::InterchainToken, (admin.clone(), None::<Address>, BytesN::<32>::from_array(&env, &[9u8; 32]), meta))
